@@ -329,7 +329,7 @@ fn pipe_pair() -> Result<(OwnedFd, OwnedFd), String> {
 }
 
 fn run_fd(t: &mut Tape, cx: &mut Cx) -> Result<(), String> {
-    let adapter = t.below(10);
+    let adapter = t.below(11);
     let slen = t.idx(41);
     let content = t.bytes(slen);
     let ncalls = 1 + t.idx(5);
@@ -482,6 +482,35 @@ fn run_fd(t: &mut Tape, cx: &mut Cx) -> Result<(), String> {
                 let n = cmp_count(&what, &rv, &rs)?;
                 b.check_read(&what, n)?;
             }
+        }
+        10 => {
+            // short writes: a non-blocking pipe accepts only what fits into its buffer
+            use std::os::fd::AsRawFd;
+            let (_vr, mut vw) = pipe_pair()?;
+            let (_sr, sw) = pipe_pair()?;
+            for fd in [vw.as_raw_fd(), sw.as_raw_fd()] {
+                // SAFETY: plain fcntl on our own descriptors.
+                unsafe {
+                    let fl = libc::fcntl(fd, libc::F_GETFL);
+                    libc::fcntl(fd, libc::F_SETFL, fl | libc::O_NONBLOCK);
+                }
+            }
+            let mut sw_f = std::fs::File::from(sw);
+            cx.label("pipe_short_write");
+            let bl = 70_000 + t.idx(100_000);
+            let b = Bufs::new(bl, t, true);
+            note!(cx, "non-blocking pipe.write(buf {})", bl);
+            let rv = vw.write_volatile(&b.fr.slice());
+            let rs = sw_f.write(&b.sbuf);
+            let n = cmp_count("non-blocking pipe.write", &rv, &rs)?;
+            if n.map(|n| n < bl).unwrap_or(false) {
+                cx.nt("short_descriptor_write");
+            }
+            // the pipe is (nearly) full now: the exact form must fail the same way on both sides
+            let rv = vw.write_all_volatile(&b.fr.slice());
+            let rs = sw_f.write_all(&b.sbuf);
+            cmp_unit("non-blocking pipe.write_all", &rv, &rs)?;
+            b.fr.canaries_ok()?;
         }
         9 => {
             // Stdout: descriptor 1 is redirected to a memfd for the duration of the call
